@@ -21,7 +21,7 @@ import time
 
 from .. import core
 
-_GROUP = {"Qarray": "C17", "Qloop": "C12", "Int60": "C03", "Hazard": "C15", "Mpool": "C14", "Dict": "C16", "Ident": "C09", "Swsr": "C15", "Hash": "C16", "Hashmap": "Hashmap"}
+_GROUP = {"Qarray": "C17", "Qloop": "C12", "Int60": "C03", "Hazard": "C15", "Mpool": "C14", "Dict": "C16", "Ident": "C09", "Swsr": "C15", "Hash": "C16", "Hashmap": "Hashmap", "Sinc": "C10"}
 _done = {}
 
 
@@ -263,8 +263,26 @@ def diff_dict(ctx, rng):
     xs = list(range(0, 256)) + [2 ** k for k in range(64)] + [2 ** k - 1 for k in range(1, 65)] + [rng.next() for _ in range(300)] + \
          [2 ** a + 2 ** rng.below(a) for a in range(1, 64) for _ in range(4)] + [(2 ** a + 2 ** rng.below(a) + 2 ** rng.below(a)) for a in range(2, 64)]
     bs = [(rng.next(), rng.choice([1, 2, 4, 8, 16, 1024, 3, 2 ** rng.range(0, 20)])) for _ in range(300)]
+    ws = [(cap, n) for cap in (2, 4, 8, 16, 64, 512) for n in (1, 9, 10, 11, 21, 45, 100, 300)]
     lines = ["R %d" % x for x in xs] + ["K %d" % (x % 2 ** 63) for x in xs] + ["D %d" % x for x in xs] + ["P %d" % x for x in xs] + \
             ["B %d %d" % b for b in bs]
+    wlines = ["W %d %d" % w for w in ws]
+    rcw, wout, werr = core.run_lines(exe, wlines + ["Q"], timeout=300, env=core.qenv(1, 1, stack=65536))
+    if rcw != 0 or len(wout) != len(wlines):
+        k = min(len(wout), len(wlines) - 1)
+        return {"kernel": "growth rule of qt_hash_put", "input": wlines[k], "c_result": "crashed / hung (rc=%s)" % rcw, "model_result": "defined"}
+    wv, mw = coq_eval(ctx, "From QV Require Import Dict.Model.",
+                      "(flat_map (fun t => snd (fold_left (fun st _ => let d := bump (fst st) in (d, snd st ++ [d_size d])) (seq 0 (snd t)) (create (fst t), [])))"
+                      " [%s])" % "; ".join("(%d%%N, %d%%nat)" % w for w in ws), timeout=600)
+    if wv is None:
+        return {"error": "model evaluation failed: " + mw}
+    pos = 0
+    for ln, o, (cap, n) in zip(wlines, wout, ws):
+        m = "w" + "".join(" %d" % v for v in wv[pos: pos + n])
+        pos += n
+        if o != m:
+            return {"kernel": "qt_hash_put growth rule: hard_max_buckets n; result = h->size after each of n puts of distinct keys",
+                    "input": ln, "c_result": o[:300], "model_result": m[:300]}
     rc, out, err = core.run_lines(exe, lines + ["Q"], timeout=120)
     if rc != 0 or len(out) != len(lines):
         return {"error": "gen_dict harness failed rc=%s %s" % (rc, err[-200:])}
@@ -401,7 +419,37 @@ def diff_hashmap(ctx, rng):
     return None
 
 
-DIFF = {"Hash": diff_hash, "Hashmap": diff_hashmap, "Swsr": diff_swsr, "Ident": diff_ident, "Dict": diff_dict, "Qarray": diff_qarray, "Qloop": diff_qloop, "Int60": diff_int60, "Hazard": diff_hazard, "Mpool": diff_mpool}
+def diff_sinc(ctx, rng):
+    exe = ctx.link("gen_sinc", ["gen_sinc.c"], exclude=["sincs/donecount.c"])
+    gs, ss = [], []
+    for _ in range(300):
+        sh = rng.choice([1, 2, 3, 4, 7])
+        wps = rng.choice([1, 2, 3, 4, 5])
+        cl = rng.choice([16, 32, 64, 128])
+        sz = rng.choice([1, 2, 7, 8, 9, 15, 16, 17, 24, 31, 32, 33, 63, 64, 65, 100, 128, 200, cl // wps if cl // wps else 1, cl // wps + 1])
+        gs.append((sh, wps, cl, sz))
+        ss.append((sh, wps, cl, sz, rng.below(sh), rng.below(wps)))
+    lines = ["G %d %d %d %d" % g for g in gs] + ["S %d %d %d %d %d %d" % x for x in ss]
+    rc, out, err = core.run_lines(exe, lines + ["Q"], timeout=120, env=core.qenv(1, 1, stack=65536))
+    if rc != 0 or len(out) != len(lines):
+        k = min(len(out), len(lines) - 1)
+        return {"kernel": "donecount.c offsets", "input": lines[k], "c_result": "crashed / hung (rc=%s) %s" % (rc, err[-150:]), "model_result": "defined"}
+    imp = "From QV Require Import Sinc.Extra."
+    gv, m1 = coq_eval(ctx, imp, "map (fun t => match t with (w, z, c) => part_size w z c end) [%s]%%nat" % "; ".join("(%d, %d, %d)" % (g[1], g[3], g[2]) for g in gs))
+    sv, m2 = coq_eval(ctx, imp, "map (fun t => match t with (w, z, c, s, k) => byte_off w z c s k end) [%s]%%nat" %
+                      "; ".join("(%d, %d, %d, %d, %d)" % (x[1], x[3], x[2], x[4], x[5]) for x in ss))
+    if gv is None or sv is None:
+        return {"error": "model evaluation failed: " + (m1 or m2)}
+    model = ["g %d" % v for v in gv] + ["s %d %d" % (v, v) for v in sv]
+    for ln, o, m in zip(lines, out, model):
+        if o != m:
+            return {"kernel": "qt_sinc_init: sheps wps cacheline sizeof_value; result = sizeof_shep_value_part" if ln[0] == "G" else
+                    "qt_sinc_submit / qt_sinc_tmpdata: sheps wps cacheline sizeof_value shepherd worker; result = byte offset of the slot updated / returned",
+                    "input": ln, "c_result": o, "model_result": m}
+    return None
+
+
+DIFF = {"Sinc": diff_sinc, "Hash": diff_hash, "Hashmap": diff_hashmap, "Swsr": diff_swsr, "Ident": diff_ident, "Dict": diff_dict, "Qarray": diff_qarray, "Qloop": diff_qloop, "Int60": diff_int60, "Hazard": diff_hazard, "Mpool": diff_mpool}
 
 
 # ---------------------------------------------------------------------------------------------- entry point
